@@ -168,7 +168,7 @@ def confusable_spellings(rng, addr, per_kind=1):
     seen = set()
     for base in (addr, addr.upper(), addr.lower()):
         for i, c in enumerate(base):
-            for t in {c, c.lower(), c.upper()}:
+            for t in sorted({c, c.lower(), c.upper()}):
                 for kind, lst in conf.get(t, {}).items():
                     if (t, kind, base is addr) in seen:
                         continue
@@ -283,6 +283,83 @@ def regrouped_spellings(rng, tier):
                 yield Case("bchdec", [tx("bitcoincash"), tx(_cashaddr_string("bitcoincash", d))], "valid-regroup" if kind == "canonical" else "neg-regroup-" + kind)
 
 
+WS_ASCII = [" ", "\t", "\n", "\r", "\x0b", "\x0c"]
+IGNORABLE_OTHER = ["\x00", "\x1c", "\x85", "\u00a0", "\u2003", "\u200b", "\ufeff", "_", "-", "+", "=", ".", ","]
+
+
+def ignorable_mutations(rng, s, tier):
+    """`s` with characters that lenient text parsers skip or strip (ASCII and Unicode white space, control and zero-width characters, digit
+    separators, signs, padding) — none is in the alphabet of any format.  Systematic in the positions that matter to a decoder working on
+    fixed-size chunks: appended, prepended, inserted at an even and at an odd offset, and substituted for two adjacent characters at an
+    even and at an odd offset (so that one of the two is aligned with 2-character byte pairs whatever prefix the format has).  A trailing
+    line feed is always among the characters tried."""
+    L = len(s)
+    if L < 6:
+        return
+    if tier == "thorough":
+        chars = WS_ASCII + IGNORABLE_OTHER
+    else:
+        chars = ["\n"] + rng.sample([c for c in WS_ASCII if c != "\n"], 2) + rng.sample(IGNORABLE_OTHER, 1)
+    for c in chars:
+        yield s + c, "ignorable-append"
+        yield c + s, "ignorable-prepend"
+        for _ in range(1 if tier == "quick" else 2):
+            p = rng.randrange(1, L - 3)
+            for q in (p, p + 1):
+                yield s[:q] + c + s[q:], "ignorable-insert"
+                yield s[:q] + c + c + s[q + 2:], "ignorable-sub2"
+    if tier == "thorough":
+        for _ in range(8):             # longer aligned runs, several places at once
+            t = list(s)
+            for _k in range(rng.randrange(1, 4)):
+                q = rng.randrange(0, L - 4)
+                n = rng.choice([2, 4])
+                t[q:q + n] = [rng.choice(WS_ASCII)] * n
+            yield "".join(t), "ignorable-runs"
+
+
+def cross_family(rng, tier):
+    """the three checksum variants of the Bech32 family (Bech32 constant 1, Bech32m, the 40-bit CashAddr code) over the same human-readable
+    part and the same data symbols, each spelling given to EVERY decoder of the family (codec level and address level, with that decoder's
+    separator) — twice over, so that each decoder also sees each string after every decoder that accepts it has accepted it — then the same
+    data part under another human-readable part and with its last symbol changed.  A decoder accepts a spelling iff it carries that
+    decoder's own checksum (and shape), whatever any decoder has accepted before; the reference is the model."""
+    T = fmt_table()
+    bch_ver = {f: dict(T[f][3][0])["net_ver"] for f in ("bchp2pkh", "bchp2sh")}
+    targets = [("1", lambda h, s: Case("bech32dec", [tx(h), tx(s)], "cross-family")),
+               ("1", lambda h, s: Case("segwitdec", [tx(h), tx(s)], "cross-family")),
+               (":", lambda h, s: Case("bchdec", [tx(h), tx(s)], "cross-family")),
+               ("1", lambda h, s: Case("addrdec", ["p2wpkh", tx(s), "hrp=" + tx(h)], "cross-family")),
+               ("1", lambda h, s: Case("addrdec", ["p2tr", tx(s), "hrp=" + tx(h)], "cross-family")),
+               ("1", lambda h, s: Case("addrdec", ["atom", tx(s), "hrp=" + tx(h)], "cross-family")),
+               (":", lambda h, s: Case("addrdec", ["bchp2pkh", tx(s), "hrp=" + tx(h), "net_ver=" + bch_ver["bchp2pkh"]], "cross-family")),
+               (":", lambda h, s: Case("addrdec", ["bchp2sh", tx(s), "hrp=" + tx(h), "net_ver=" + bch_ver["bchp2sh"]], "cross-family"))]
+    hrps = ["bc", "tb", "bitcoincash", "cosmos", "ltc"]
+    for _ in range(1 if tier == "quick" else 12):
+        rb = lambda n: bytes(rng.randrange(256) for _ in range(n))
+        shapes = [[0] + _groups5(rb(20)), [0] + _groups5(rb(32)), [1] + _groups5(rb(32)), [rng.randrange(2, 17)] + _groups5(rb(rng.choice([2, 20, 32, 40]))),
+                  _groups5(unhx(bch_ver["bchp2pkh"]) + rb(20)), _groups5(unhx(bch_ver["bchp2sh"]) + rb(20)), _groups5(rb(20))]
+        for data5 in shapes:
+            hrp = rng.choice(hrps)
+            other = rng.choice([h for h in hrps if h != hrp])
+            for spell in (lambda h: _bech32_string(h, data5, 1), lambda h: _bech32_string(h, data5, 0x2bc830a3), lambda h: _cashaddr_string(h, data5)):
+                yield None           # a new block: the history that matters to the cases below starts here
+                full = spell(hrp)
+                part = full[len(hrp) + 1:]
+                for rnd in range(2):
+                    for sep, mk in targets:
+                        s = hrp + sep + part
+                        yield mk(hrp, s.upper() if rnd and rng.random() < 0.25 else s)
+                for sep, mk in targets:
+                    yield mk(other, other + sep + part)
+                    yield mk(hrp, hrp + sep + part[:-1] + rng.choice([c for c in B32C if c != part[-1]]))
+                # ... and the spelling that IS valid under the other human-readable part, after this one was accepted
+                part2 = spell(other)[len(other) + 1:]
+                for sep, mk in targets:
+                    yield mk(other, other + sep + part2)
+                    yield mk(hrp, hrp + sep + part2)
+
+
 ORACLE_MISS_OPS = ("byrondec",)     # the Byron model covers the canonical CBOR shapes; outside them only the error family is checked
 
 
@@ -295,6 +372,7 @@ def gen(rng, tier):
     yield from caseless_strings(rng, tier)
     yield from byron_cases(rng, tier)
     T = fmt_table()
+    valid_addrs = []
     n_addr = 2 if tier == "quick" else 12
     n_mut = 40 if tier == "quick" else 500
     first = True
@@ -320,6 +398,10 @@ def gen(rng, tier):
             if i == 0 or tier == "thorough":
                 for m, kind in confusable_spellings(rng, addr):
                     yield Case("addrdec", [fmt, tx(m)] + kwfields(dkw), "neg-" + kind)
+            for m, kind in ignorable_mutations(rng, addr, tier):
+                yield Case("addrdec", [fmt, tx(m)] + kwfields(dkw), "neg-" + kind)
+            if i == 0 or tier == "thorough":
+                valid_addrs.append((fmt, addr))
             # wrong parameters
             other = dict(params[(i * 7 + 1) % len(params)])
             okw = {k: v for k, v in other.items() if k not in ("compressed", "trim_zeroes", "pub_vkey")}
@@ -327,6 +409,15 @@ def gen(rng, tier):
                 okw["payment_id"] = hx(bytes(8))
             yield Case("addrdec", [fmt, tx(addr)] + kwfields(okw), "neg-wrongparam")
         first = False
+    # every valid address, accepted above by its own decoder, then given to the decoder of every OTHER format (first parameter row): what a
+    # decoder accepts depends on the string and its own parameters only, never on what another decoder has accepted before
+    for fmt, addr in valid_addrs:
+        for fmt2, (_c, _e, _d, params2) in T.items():
+            if fmt2 != fmt:
+                kw2 = {k: v for k, v in dict(params2[0]).items() if k not in ("compressed", "trim_zeroes", "pub_vkey")}
+                if fmt2 == "xmrint":
+                    kw2["payment_id"] = hx(bytes(8))
+                yield Case("addrdec", [fmt2, tx(addr)] + kwfields(kw2), "cross-format")
     # codec-level decoders
     for i in range(6 if tier == "quick" else 60):
         payload = bytes(rng.randrange(256) for _ in range(rng.choice([1, 5, 20, 21, 32, 33])))
@@ -334,11 +425,15 @@ def gen(rng, tier):
         yield Case("b58chkdec", ["btc", tx(s)], "valid-b58chk")
         for m, kind in mutations(rng, s, B58, n_mut):
             yield Case("b58chkdec", ["btc", tx(m)], "neg-" + kind)
+        for m, kind in ignorable_mutations(rng, s, tier):
+            yield Case("b58chkdec", ["btc", tx(m)], "neg-" + kind)
         # non-canonical: extra leading '1'
         yield Case("b58chkdec", ["btc", tx("1" + s)], "neg-noncanon")
         s = Bech32Encoder.Encode("test", payload)
         yield Case("bech32dec", [tx("test"), tx(s)], "valid-bech32")
         for m, kind in mutations(rng, s, B32C, n_mut):
+            yield Case("bech32dec", [tx("test"), tx(m)], "neg-" + kind)
+        for m, kind in ignorable_mutations(rng, s, tier):
             yield Case("bech32dec", [tx("test"), tx(m)], "neg-" + kind)
         if i < 2:
             for m, kind in confusable_spellings(rng, s):
@@ -351,12 +446,16 @@ def gen(rng, tier):
         yield Case("segwitdec", [tx("bc"), tx(s)], "valid-segwit")
         for m, kind in mutations(rng, s, B32C, n_mut):
             yield Case("segwitdec", [tx("bc"), tx(m)], "neg-" + kind)
+        for m, kind in ignorable_mutations(rng, s, tier):
+            yield Case("segwitdec", [tx("bc"), tx(m)], "neg-" + kind)
         if i < 2:
             for m, kind in confusable_spellings(rng, s):
                 yield Case("segwitdec", [tx("bc"), tx(m)], "neg-" + kind)
         s = BchBech32Encoder.Encode("bitcoincash", b"\x00", prog)
         yield Case("bchdec", [tx("bitcoincash"), tx(s)], "valid-bch")
         for m, kind in mutations(rng, s, B32C, n_mut):
+            yield Case("bchdec", [tx("bitcoincash"), tx(m)], "neg-" + kind)
+        for m, kind in ignorable_mutations(rng, s, tier):
             yield Case("bchdec", [tx("bitcoincash"), tx(m)], "neg-" + kind)
         if i < 2:
             for m, kind in confusable_spellings(rng, s):
@@ -367,15 +466,21 @@ def gen(rng, tier):
         yield Case("ss58dec", [tx(s)], "valid-ss58")
         for m, kind in mutations(rng, s, B58, n_mut):
             yield Case("ss58dec", [tx(m)], "neg-" + kind)
+        for m, kind in ignorable_mutations(rng, s, tier):
+            yield Case("ss58dec", [tx(m)], "neg-" + kind)
         k = rand_priv(rng, "secp256k1")
         s = WifEncoder.Encode(k, b"\x80", rng.choice([WifPubKeyModes.COMPRESSED, WifPubKeyModes.UNCOMPRESSED]))
         yield Case("wifdec", [tx(s), hx(b"\x80")], "valid-wif")
         for m, kind in mutations(rng, s, B58, n_mut):
             yield Case("wifdec", [tx(m), hx(b"\x80")], "neg-" + kind)
+        for m, kind in ignorable_mutations(rng, s, tier):
+            yield Case("wifdec", [tx(m), hx(b"\x80")], "neg-" + kind)
         yield Case("wifdec", [tx(s), hx(b"\xef")], "neg-wrongparam")
         s = Base58XmrEncoder.Encode(payload)
         yield Case("xmrdec", [tx(s)], "valid-xmr")
         for m, kind in mutations(rng, s, B58, n_mut):
+            yield Case("xmrdec", [tx(m)], "neg-" + kind)
+        for m, kind in ignorable_mutations(rng, s, tier):
             yield Case("xmrdec", [tx(m)], "neg-" + kind)
     # directed non-canonical encodings / reserved prefixes / published vectors
     for pre in (b"\x80", b"\xc0\x00", bytes([0x41, 0x40]), bytes([0x40, 0x00]), bytes([0x7f, 0xff]), bytes([0x4b, 0x80]), bytes([0x4b, 0xc0]), bytes([46]), bytes([47])):
@@ -461,7 +566,42 @@ def relations(rng, tier, rpt):
                         "relation": "a Bech32 string with 1..4 substituted symbols is accepted", "input": m,
                         "impl_output": got.hex() if isinstance(got, bytes) else str(got), "model_output": "rejected", "no_failing_input": False})
     rpt.extra["bech32_le4_substitution_checks"] = n
-    bad = bad[:5] + _spelling_relation(rng, tier, rpt)
+    bad = bad[:5] + _spelling_relation(rng, tier, rpt) + _cross_family_relation(rng, tier, rpt)
+    return bad
+
+
+def _cross_family_relation(rng, tier, rpt):
+    """the cases of cross_family, run in their order in this process; the reply demanded for each is the model's (one batch through the
+    compiled driver).  A witness is a call HISTORY: its request lines are the earlier accepted requests of the block, then the failing one."""
+    import sys
+    from harness.core import run_driver, run_impl, HarnessError
+    me = sys.modules[__name__]
+    blocks = []
+    for c in cross_family(rng, tier):
+        if c is None:
+            blocks.append([])
+        else:
+            blocks[-1].append(c)
+    flat = [c for b in blocks for c in b]
+    model = dict(zip([c.line for c in flat], run_driver([c.line for c in flat])))
+    bad, n = [], 0
+    for b in blocks:
+        seen = []
+        for c in b:
+            n += 1
+            want = model[c.line]
+            if want.startswith("bad-"):
+                raise HarnessError("driver rejected request %r: %s" % (c.line, want))
+            got = run_impl(me, c)
+            if got != want and len(bad) < 6:
+                bad.append({"property": "C10", "entry_point": c.op + (" " + c.args[0] if c.op == "addrdec" else ""), "class": "cross-family-history",
+                            "request_lines": [x.line for x, g in seen if g.startswith("ok")] + [c.line],
+                            "relation": "after the earlier requests of this history were accepted (same human-readable part and data symbols, another decoder of the "
+                                        "Bech32 family), a decoder answers differently from the model: what it accepts must depend on the string alone",
+                            "input": untx(c.args[1]), "impl_output": got, "model_output": want, "no_failing_input": False})
+                break
+            seen.append((c, got))
+    rpt.extra["cross_family_history_checks"] = n
     return bad
 
 
@@ -493,7 +633,9 @@ def _spelling_relation(rng, tier, rpt):
                 continue
             alphabet = ALPHA.get(fmt) or (B32C + "b1io" if addr.lower() == addr and "1" in addr and fmt not in ("eth",) and set(addr[addr.rfind("1") + 1:]) <= set(B32C) else B58 + "0OIl")
             norm = (lambda x: x.replace(" ", "").lower()) if fmt == "nim" else (lambda x: x.lower())
-            for m, kind in mutations(rng, addr, alphabet, 60 if tier == "quick" else 400, exhaustive_single=True):
+            import itertools
+            for m, kind in itertools.chain(mutations(rng, addr, alphabet, 60 if tier == "quick" else 400, exhaustive_single=True),
+                                           ignorable_mutations(rng, addr, tier)):
                 if norm(m) == norm(addr):
                     continue
                 n += 1
